@@ -8,15 +8,17 @@ package bitmap
 // Since 0.1.9
 func Of(bitPositions []int32, opts ...int32) []uint64 {
 
-	n := int32(0)
+	// int64: the last position + 1 does not fit an int32 if the last position
+	// is MaxInt32.
+	n := int64(0)
 
 	// The first opts is specified number of result bits.
 	if len(opts) > 0 {
-		n = opts[0]
+		n = int64(opts[0])
 	}
 
 	if len(bitPositions) > 0 {
-		max := bitPositions[len(bitPositions)-1] + 1
+		max := int64(bitPositions[len(bitPositions)-1]) + 1
 		if n < max {
 			n = max
 		}
